@@ -40,13 +40,20 @@ struct Run<'a> {
 
 impl<'a> Run<'a> {
     fn new(out: &'a mut NdjsonWriter, seed: u64, ironwood: bool, label: Value) -> Self {
+        Self::with_retention(out, seed, ironwood, None, label)
+    }
+
+    fn with_retention(out: &'a mut NdjsonWriter, seed: u64, ironwood: bool, interval: Option<u32>, label: Value) -> Self {
         let mut rng = ChaChaRng::seed_from_u64(seed);
-        let (w, keys) = W::new(ironwood);
+        let (w, keys) = W::with_retention(ironwood, interval);
         let chain = Chain::new(w.base, keys, &mut rng, ironwood);
         let trees = std::env::var("VERIF_TREES").map(|v| v == "1").unwrap_or(false);
         let mut r = Run { w, chain, out, rng, ironwood, next_value: 0, aborted: false, orphaned: vec![], trees, salt: seed };
         let post = r.post();
-        r.out.emit(&json!({"a": "reset", "hist": label, "ironwood": ironwood, "post": post}));
+        // retention grid of this wallet: interval (0: policy inactive, NU6.3 not active) and first height it applies to
+        let grid = if ironwood { interval.unwrap_or(144) } else { 0 };
+        let gbase = r.w.base;   // heights are logged relative to `base`; absolute = base + rel
+        r.out.emit(&json!({"a": "reset", "hist": label, "ironwood": ironwood, "grid": grid, "gbase": gbase, "post": post}));
         r
     }
 
@@ -473,12 +480,68 @@ fn tree_scenarios(out: &mut NdjsonWriter, ironwood: bool, variants: &[u64]) {
     }
 }
 
+/// C06 retention scenarios (NU6.3 active, small custom grids): boundary blocks with and without
+/// commitments in each pool, batches shorter and longer than the checkpoint budget, batch
+/// boundaries before / on / after a grid height
+fn retention_scenarios(out: &mut NdjsonWriter, which: &[u32]) {
+    for &variant in which {
+        let interval = [12u32, 7, 30][variant as usize % 3];
+        let mut r = Run::with_retention(out, 8000 + variant as u64, true, Some(interval), json!(format!("R v{variant} interval={interval}")));
+        let mut rng = ChaChaRng::seed_from_u64(variant as u64);
+        let total = if variant >= 3 { 260 } else { 90 };
+        for i in 1..=total {
+            let h = r.chain.top() + 1;
+            let on_grid = h % interval == 0;
+            // variants: boundary blocks empty / Sapling silent on boundaries / everything dense
+            let pools: Vec<Pool> = match variant % 3 {
+                0 => if on_grid { vec![] } else { vec![Pool::Sapling, Pool::Orchard] },
+                1 => if on_grid { vec![Pool::Orchard] } else { vec![Pool::Sapling] },
+                _ => vec![[Pool::Sapling, Pool::Orchard, Pool::Ironwood][(i % 3) as usize]],
+            };
+            let txs: Vec<TxReq> = pools
+                .iter()
+                .map(|p| TxReq { outs: vec![OutReq { pool: *p, acct: if i % 5 == 0 { 1 } else { 0 }, internal: false, diversified: false, value: 30_000 + i as u64 }], spends: vec![], foreign_spends: vec![] })
+                .collect();
+            r.block(&txs, &[], false);
+        }
+        r.tip_top();
+        if variant >= 3 {
+            // one batch far longer than the checkpoint budget
+            r.scan(r.abs(1), 1000);
+        } else {
+            loop {
+                let scanned = r.scanned();
+                let top = r.chain.top();
+                let Some(from) = (r.chain.base + 1..=top).find(|h| !scanned.contains(&r.w.rel(*h))) else { break };
+                let limit = rng.gen_range(1..(2 * interval as usize));
+                if !r.scan(from, limit) { break }
+            }
+        }
+        // ordinary scanning continues: the boundaries must survive pruning
+        for _ in 0..3 {
+            for i in 0..45u64 {
+                r.block(&[TxReq { outs: vec![OutReq { pool: Pool::Sapling, acct: 0, internal: false, diversified: false, value: 40_000 + i }, OutReq { pool: Pool::Orchard, acct: 0, internal: false, diversified: false, value: 41_000 + i }], spends: vec![], foreign_spends: vec![] }], &[], false);
+            }
+            r.tip_top();
+            let top = r.chain.top();
+            r.scan(top - 44, 45);
+        }
+        let top = r.chain.top();
+        r.trunc(top - 20, true);
+        r.empties(3);
+        r.catch_up_and_fresh();
+    }
+}
+
 fn main() {
     quiet_panics();
     let args: Vec<String> = std::env::args().collect();
     let mut out = NdjsonWriter::create(&args[1]);
     if args[2] == "scenarios" {
         scenarios(&mut out);
+    } else if args[2] == "retention-scenarios" {
+        let all = args.get(3).map(|s| s == "all").unwrap_or(false);
+        retention_scenarios(&mut out, if all { &[0, 1, 2, 3, 4, 5] } else { &[0, 4] });
     } else if args[2] == "tree-scenarios" {
         // quick: one variant per network; "all": every variant on both
         let all = args.get(3).map(|s| s == "all").unwrap_or(false);
